@@ -1,19 +1,24 @@
 /-
-Concrete witnesses for the four known panic triggers of the pinned engine (DESIGN.md §6: F-4, F-5,
-F-9, F-10) and for the C21 defect candidate "implicit recursion coercion to a non-subtype".
+Concrete witnesses for the two known panic triggers of the engine (DESIGN.md §6: F-4, F-5), regression
+worlds for the two triggers that were fixed in the engine (F-9, F-10), and the witness for the C21
+defect candidate "implicit recursion coercion to a non-subtype".
 
 Each world is tiny (one or three types, one or two vertices) and REAL: the IR is exactly what the
 real frontend produces for the GraphQL text given in the world's doc comment, and the real engine
 panics on it (resp. breaks the adapter contract) — the request lines are in `corpus/C09.cases` and
 `corpus/C21.cases` and are replayed by every `./check C09` / `./check C21`.
 
-Per world `Fn`:
+Per open world `Fn` (F-4, F-5):
 * `Fn.hyps`    — every decidable hypothesis of the invariant theorems except the trigger guard holds
                  (`WFq`, `SchemaOK`, `ArgsOK`, `Conforms`): the query is an accepted, well-typed one;
 * `Fn.trigger` — the guard `NoKnownTrigger` is false: the guard does fire on the witness;
 * `Fn.panics`  — the interpreter model panics at the site of that defect.
 So "executing an accepted query never panics" (C09) is false at full strength, the guard of the
-partial theorem is not vacuous, and each of its four disjuncts is necessary.
+partial theorem is not vacuous, and each of its two disjuncts is necessary.
+
+Per fixed world (F-9, F-10): HISTORY in the doc comment (what used to panic and where), and the
+regression facts: all *five* hypotheses hold (`hyps`, the guard included) and the world now runs to
+rows (`runs`).
 
 `computeComponent`/`runStages`/`computeFold`/`foldOne` are defined by well-founded recursion, hence
 opaque to `decide`/`rfl`; they are unfolded with their equation lemmas and every closed sub-term that
@@ -131,7 +136,7 @@ theorem panics : interpret (Env.ofData D args) ir = .panic "filter operator: unr
 
 end F5
 
-/-! ### F-9: a fold-count post-filter on a `@fold` below a missing `@optional` vertex
+/-! ### F-9 (FIXED in the engine): a fold-count post-filter on a `@fold` below a missing `@optional` vertex
 
 ```graphql
 type T0 { s: String  e0: [T0] }        type RootSchemaQuery { R0: [T0] }
@@ -139,6 +144,14 @@ type T0 { s: String  e0: [T0] }        type RootSchemaQuery { R0: [T0] }
        e0 @optional { e0 @fold @transform(op: "count") @filter(op: "=", value: ["$v1"]) } } }
 args: v1 = 0;   data: one vertex without `e0` neighbours
 ```
+HISTORY.  On the pinned engine this world panicked: the fold hangs off the missing vertex `Vid 2`, its
+slot in `folded_contexts` holds `None`, and `apply_fold_specific_filter` answered
+`unreachable!("while applying fold-specific filter, the @fold turned out to not exist")`.  The guard
+`NoKnownTrigger` had a clause excluding post-filters on folds below optional vertices, and C09 had
+the witness theorem `exec_panics_F9` on this world.  Since the fix (`hooks/fix-F9.diff`) the function
+pushes `FieldValue::Null` for a non-existent fold and runs the ordinary filter stage, which lets a
+context without active vertex through.  The site, the guard clause and the witness theorem are gone;
+what remains is the regression: the same world satisfies every hypothesis and yields its row.
 -/
 namespace F9
 
@@ -168,19 +181,29 @@ def args : List (Name × Value) := [("v1", .int64 0)]
 
 /-- the only context after the `@optional` edge: `Vid 2` is recorded as missing -/
 def ctx2 : Ctx := { ctx0 with active := none, vertices := [(1, some 0), (2, none)] }
+/-- … and after the fold: the slot of the non-existent fold holds `None`, the context survived the
+post-filter -/
+def ctx3 : Ctx := { ctx2 with foldCounts := [(2, none)] }
 
+/-- the single result row -/
+def rows : List Row := [[("o0", .string [0x61])]]
+
+/-- all five hypotheses of the invariant theorems hold, the guard included -/
 theorem hyps :
-    WFq ir = true ∧ SchemaOK S ir = true ∧ ArgsOK ir args = true ∧ Conforms S D = true := by decide
-
-theorem trigger : NoKnownTrigger D ir args = false := by decide
+    WFq ir = true ∧ SchemaOK S ir = true ∧ ArgsOK ir args = true ∧ Conforms S D = true ∧
+      NoKnownTrigger D ir args = true := by decide
 
 /-- `interpret` up to the first well-founded call: the single starting vertex enters the root component -/
 theorem unfold1 : interpret (Env.ofData D args) ir =
     (computeComponent (Env.ofData D args) (62 + 1 + 1) comp [ctx0]).bind
       (mapR (constructRow (Env.ofData D args) comp)) := rfl
 
-theorem panics : interpret (Env.ofData D args) ir = .panic
-    "while applying fold-specific filter, the @fold turned out to not exist: unreachable!" := by
+/-- regression of the F-9 fix: the post-filter on the non-existent fold lets the context through -/
+theorem postFilter_passes :
+    foldFinish (Env.ofData D args) comp fold2 (some 0, none) ctx2 [] = .ok (some ctx3) := rfl
+
+/-- regression of the F-9 fix: the world that used to panic now yields its row -/
+theorem runs : interpret (Env.ofData D args) ir = .ok rows := by
   have hv : comp.vertex? 1 = some v1 := rfl
   have he : enterVertex (Env.ofData D args) comp v1 [ctx0] = .ok [ctx1] := rfl
   have hm : mergeStages comp.edges comp.folds (comp.edges.length + comp.folds.length)
@@ -204,24 +227,33 @@ theorem panics : interpret (Env.ofData D args) ir = .panic
   have he3 : enterVertex (Env.ofData D args) comp3 v3 [] = .ok [] := rfl
   have hm3 : mergeStages comp3.edges comp3.folds (comp3.edges.length + comp3.folds.length)
       = .ok [] := rfl
-  -- … and the post-filter on the non-existent fold
-  have hfin : foldFinish (Env.ofData D args) comp fold2 (some 0, none) ctx2 [] = .panic
-      "while applying fold-specific filter, the @fold turned out to not exist: unreachable!" := rfl
+  -- … the post-filter on the non-existent fold, and the row
+  have hfin := postFilter_passes
+  have hr : mapR (constructRow (Env.ofData D args) comp) [ctx3] = .ok rows := rfl
   rw [unfold1]
   simp only [computeComponent, runStages, computeFold, foldOne, filterMapR,
-    hv, he, hm, hroot, hk1, hx, hk2, hf, hi, ha, hl, hn, hfs, hc3, hv3, he3, hm3, hfin,
-    R.bind_ok', R.bind_panic']
+    hv, he, hm, hroot, hk1, hx, hk2, hf, hi, ha, hl, hn, hfs, hc3, hv3, he3, hm3, hfin, hr,
+    R.bind_ok']
 
 end F9
 
-/-! ### F-10: the same tag used twice inside one fold
+/-! ### F-10 (FIXED in the engine): the same tag used twice inside one fold
 
 ```graphql
 type T0 { s: String  e0: [T0] }        type RootSchemaQuery { R0: [T0] }
 { R0 { s @output(name: "o0") @tag(name: "t1")
        e0 @fold { s @filter(op: "=", value: ["%t1"]) @filter(op: "!=", value: ["%t1"]) } } }
 ```
-The fold's `imports` lists `(ctx 1 s)` twice; the second `imported_tags.remove(..).unwrap()` fails.
+HISTORY.  The pinned frontend (`reference_tag`) pushed the tag onto the fold's `imported_tags` once per
+use, so the fold's `imports` listed `(ctx 1 s)` twice (`ir` below); `compute_fold` inserts the imports
+into a map and removes them one by one with `imported_tags.remove(..).unwrap()`, and the second
+removal failed.  The guard `NoKnownTrigger` had the clause `tagKeysDistinct f.imports`, and C09 had
+the witness theorem `exec_panics_F10` on this world.  Since the fix (`hooks/fix-F10.diff`) the
+frontend pushes a tag only if it is not yet contained: the IR for this query is `irFixed`
+(`(ctx 1 s)` once).  The interpreter is unchanged and still relies on distinct imports
+(`dup_still_panics`), which is why `tagKeysDistinct` is now a clause of the structural
+well-formedness `WFq`: the old IR is not well-formed any more (`old_ir_not_wf`), the fixed one
+satisfies every hypothesis and yields its row (`hyps`, `runs`).
 -/
 namespace F10
 
@@ -234,25 +266,52 @@ def v2 : IRVertex := ⟨2, "T0", none,
   [⟨.bin .equals, .loc "s" tyStr, some (.tag tagRef)⟩,
    ⟨.bin .notEquals, .loc "s" tyStr, some (.tag tagRef)⟩]⟩
 def comp2 : Component := .mk 2 [v2] [] [] []
+/-- the fold as the pinned frontend compiled it: the tag imported twice -/
 def fold1 : Fold := .mk 1 1 2 "e0" [] comp2 [tagRef, tagRef] [] []
 def comp : Component := .mk 1 [v1] [] [fold1] [⟨"o0", 1, "s", tyStr⟩]
+/-- the IR of the pinned frontend (duplicate import) -/
 def ir : IRQuery := ⟨"R0", [], [], comp⟩
+/-- the fold as the fixed frontend compiles it: imports de-duplicated -/
+def fold1Fixed : Fold := .mk 1 1 2 "e0" [] comp2 [tagRef] [] []
+def compFixed : Component := .mk 1 [v1] [] [fold1Fixed] [⟨"o0", 1, "s", tyStr⟩]
+/-- the IR of the fixed frontend -/
+def irFixed : IRQuery := ⟨"R0", [], [], compFixed⟩
 def args : List (Name × Value) := []
 
-/-- the outer context with the tag imported (the second import overwrites the first) -/
+/-- the outer context with the tag imported -/
 def ctx2 : Ctx := { ctx1 with importedTags := [(.ctx 1 "s", .some (.string [0x61]))] }
+/-- … and after the fold (no neighbours: zero elements), the imported tag removed again -/
+def ctx3 : Ctx := { ctx1 with foldCounts := [(1, some 0)] }
 
+/-- the single result row -/
+def rows : List Row := [[("o0", .string [0x61])]]
+
+/-- the IR with the duplicated import is not well-formed any more … -/
+theorem old_ir_not_wf : WFq ir = false := by decide
+
+/-- … although everything else about it is fine (it is exactly the `tagKeysDistinct` clause that
+rejects it) -/
+theorem old_ir_rest : SchemaOK S ir = true ∧ ArgsOK ir args = true ∧ Conforms S D = true ∧
+    NoKnownTrigger D ir args = true := by decide
+
+/-- all five hypotheses of the invariant theorems hold for the IR of the fixed frontend -/
 theorem hyps :
-    WFq ir = true ∧ SchemaOK S ir = true ∧ ArgsOK ir args = true ∧ Conforms S D = true := by decide
-
-theorem trigger : NoKnownTrigger D ir args = false := by decide
+    WFq irFixed = true ∧ SchemaOK S irFixed = true ∧ ArgsOK irFixed args = true ∧
+      Conforms S D = true ∧ NoKnownTrigger D irFixed args = true := by decide
 
 /-- `interpret` up to the first well-founded call: the single starting vertex enters the root component -/
 theorem unfold1 : interpret (Env.ofData D args) ir =
     (computeComponent (Env.ofData D args) (62 + 1 + 1) comp [ctx0]).bind
       (mapR (constructRow (Env.ofData D args) comp)) := rfl
 
-theorem panics :
+theorem unfold1Fixed : interpret (Env.ofData D args) irFixed =
+    (computeComponent (Env.ofData D args) (62 + 1 + 1) compFixed [ctx0]).bind
+      (mapR (constructRow (Env.ofData D args) compFixed)) := rfl
+
+/-- the clause is necessary: the interpreter (unchanged by the fix) still does one
+`imported_tags.remove(..).unwrap()` per import, so on the — now impossible — IR with the duplicate it
+would still fail -/
+theorem dup_still_panics :
     interpret (Env.ofData D args) ir = .panic "imported_tags.remove(..).unwrap()" := by
   have hv : comp.vertex? 1 = some v1 := rfl
   have he : enterVertex (Env.ofData D args) comp v1 [ctx0] = .ok [ctx1] := rfl
@@ -278,6 +337,35 @@ theorem panics :
   simp only [computeComponent, runStages, computeFold, foldOne, filterMapR,
     hv, he, hm, hroot, hk, hf, hi, ha, hl, hn, hfs, hc2, hv2, he2, hm2, hfin,
     R.bind_ok', R.bind_panic']
+
+/-- regression of the F-10 fix: the IR the fixed frontend produces for the query runs to its row -/
+theorem runs : interpret (Env.ofData D args) irFixed = .ok rows := by
+  have hv : compFixed.vertex? 1 = some v1 := rfl
+  have he : enterVertex (Env.ofData D args) compFixed v1 [ctx0] = .ok [ctx1] := rfl
+  have hm : mergeStages compFixed.edges compFixed.folds
+      (compFixed.edges.length + compFixed.folds.length) = .ok [.fold fold1Fixed] := rfl
+  have hroot : compFixed.root = 1 := rfl
+  have hk : checkVisited [1] fold1Fixed.fromVid fold1Fixed.toVid = .ok [2, 1] := rfl
+  have hf : compFixed.vertex? fold1Fixed.fromVid = some v1 := rfl
+  have hi : mapR (importTags (Env.ofData D args) compFixed fold1Fixed.imports) [ctx1]
+      = .ok [ctx2] := rfl
+  have ha : mapR (fun c => c.activate fold1Fixed.fromVid) [ctx2] = .ok [ctx2] := rfl
+  have hl : foldLimits (Env.ofData D args) compFixed fold1Fixed = .ok (none, none) := rfl
+  have hn : (Env.ofData D args).adapter.nbrs fold1Fixed.eid v1.typeName fold1Fixed.name
+      fold1Fixed.params ctx2.active = .ok [] := rfl
+  have hfs : foldStart ctx2 [] = [] := rfl
+  have hc2 : fold1Fixed.component = comp2 := rfl
+  have hv2 : comp2.vertex? comp2.root = some v2 := rfl
+  have he2 : enterVertex (Env.ofData D args) comp2 v2 [] = .ok [] := rfl
+  have hm2 : mergeStages comp2.edges comp2.folds (comp2.edges.length + comp2.folds.length)
+      = .ok [] := rfl
+  have hfin : foldFinish (Env.ofData D args) compFixed fold1Fixed (none, none) ctx2 []
+      = .ok (some ctx3) := rfl
+  have hr : mapR (constructRow (Env.ofData D args) compFixed) [ctx3] = .ok rows := rfl
+  rw [unfold1Fixed]
+  simp only [computeComponent, runStages, computeFold, foldOne, filterMapR,
+    hv, he, hm, hroot, hk, hf, hi, ha, hl, hn, hfs, hc2, hv2, he2, hm2, hfin, hr,
+    R.bind_ok']
 
 end F10
 
